@@ -29,7 +29,7 @@ MUTANTS = [
      "merging a node4 into its only child forgets the branch byte"),
     ("m04_findchild_no_len_check", ["C10", "C01"], [R("node.go", "i != -1 && i < int(n4.childrenLen)", "i != -1")],
      "findChild on node4 accepts stale lanes"),
-    ("m05_collation_search_by_sortkey", ["C08", "C01"], [R("collation.go", "\t\t\tif bytes.Equal(leaf.getKey(), keyS) {\n\t\t\t\treturn leaf.value, true\n\t\t\t}\n\t\t\treturn notFound, false", "\t\t\tif bytes.Equal(leaf.getTransformKey(), colKey) {\n\t\t\t\treturn leaf.value, true\n\t\t\t}\n\t\t\treturn notFound, false")],
+    ("m05_collation_search_by_sortkey", ["C08", "C01"], [R("collation.go", "\t\t\tif bytes.Equal(leaf.getKey(), keyS) {\n\t\t\t\treturn leaf.value, true\n\t\t\t}\n\t\t\treturn notFound, false", "\t\t\tif len(keyS) >= 0 && bytes.Equal(leaf.getTransformKey(), colKey) {\n\t\t\t\treturn leaf.value, true\n\t\t\t}\n\t\t\treturn notFound, false")],
      "collation Search tells keys apart by sort key instead of original bytes"),
     ("m06_insertpos16_no_bias", ["C10", "C02"], [R("node16_amd64.s", "\tPXOR\t\tvTmp, vBitfield\n\tPXOR\t\tvTmp, vMask\n", "")],
      "signed compare in insertPosNode16 (bytes >= 0x80 sort before smaller ones)"),
@@ -53,7 +53,7 @@ MUTANTS = [
      "maximum() on a node48 ignores byte 0xFF"),
     ("m16_topk_over_all", ["C05"], [R("tree.go", "for key, val := range t.Backward() {", "for key, val := range t.All() {")],
      "TopK iterates ascending"),
-    ("m17_bottomk_off_by_one", ["C05"], [R("tree.go", "\t\t\tif !yield(key, val) {\n\t\t\t\tbreak\n\t\t\t}\n\n\t\t\tk--\n\t\t}\n\t}\n}\n\nfunc lowestCommonParent", "\t\t\tk--\n\t\t\tif k == 0 {\n\t\t\t\treturn\n\t\t\t}\n\n\t\t\tif !yield(key, val) {\n\t\t\t\tbreak\n\t\t\t}\n\t\t}\n\t}\n}\n\nfunc lowestCommonParent")],
+    ("m17_bottomk_off_by_one", ["C05"], [R("tree.go", "\t\tfor key, val := range t.All() {\n\t\t\tif k == 0 {\n\t\t\t\treturn\n\t\t\t}\n", "\t\tfor key, val := range t.All() {\n\t\t\tif k <= 1 {\n\t\t\t\treturn\n\t\t\t}\n")],
      "BottomK yields k-1 elements"),
     ("m18_size_on_overwrite", ["C06"], [R("trees.go", "\t\tif bytes.Equal(keyS, nl.getKey()) {\n\t\t\tnl.value = val\n\t\t\treturn\n\t\t}", "\t\tif bytes.Equal(keyS, nl.getKey()) {\n\t\t\tnl.value = val\n\t\t\tt.size++\n\t\t\treturn\n\t\t}", nth=2)],
      "signed tree counts an overwrite as a new key"),
@@ -104,10 +104,9 @@ MUTANTS = [
      "revert D8"),
     ("m41_deleted_leaves_kept", ["C17"], [R("trees.go", "\t\t\tif bytes.Equal(leaf.getKey(), keyS) {\n\t\t\t\tref.deleteChild(keyS[depth])\n\t\t\t\tt.size--\n\t\t\t\treturn true\n\t\t\t}", "\t\t\tif bytes.Equal(leaf.getKey(), keyS) {\n\t\t\t\tref.deleteChild(keyS[depth])\n\t\t\t\tt.size--\n\t\t\t\tgraveyard = append(graveyard, child.pointer)\n\t\t\t\treturn true\n\t\t\t}", nth=0), R("trees.go", "type alphaSortedTree[K chars, V any] struct {", "var graveyard []unsafe.Pointer\n\ntype alphaSortedTree[K chars, V any] struct {")],
      "alpha Delete keeps every deleted leaf on a package-level list"),
-    ("m42_leaf_key_uintptr", ["C18"], [R("trees.go", "type floatLeafNode[V any] struct {\n\tkey   *byte\n\tvalue V\n\tlen   uint32\n}\n\nfunc (n *floatLeafNode[V]) getKey() []byte          { return unsafe.Slice(n.key, n.len) }\nfunc (n *floatLeafNode[V]) getTransformKey() []byte { return unsafe.Slice(n.key, n.len) }",
-                                     "type floatLeafNode[V any] struct {\n\tkey   uintptr\n\tvalue V\n\tlen   uint32\n}\n\nfunc (n *floatLeafNode[V]) getKey() []byte          { return unsafe.Slice((*byte)(unsafe.Pointer(n.key)), n.len) }\nfunc (n *floatLeafNode[V]) getTransformKey() []byte { return unsafe.Slice((*byte)(unsafe.Pointer(n.key)), n.len) }"),
-                               R("trees.go", "\t\treturn unsafe.Pointer(&floatLeafNode[V]{\n\t\t\tkey:   unsafe.SliceData(keyS),", "\t\treturn unsafe.Pointer(&floatLeafNode[V]{\n\t\t\tkey:   uintptr(unsafe.Pointer(unsafe.SliceData(keyS))),")],
-     "float leaf keeps its key as uintptr: the key bytes are not kept alive"),
+    ("m42_leaf_key_hidden_from_gc", ["C18"], [R("trees.go", "\t\treturn unsafe.Pointer(&floatLeafNode[V]{\n\t\t\tkey:   unsafe.SliceData(keyS),", "\t\thidden := uintptr(unsafe.Pointer(unsafe.SliceData(keyS))) // the key bytes are referenced by an integer only\n\t\tkeyS = nil\n\t\truntime.Gosched()\n\t\treturn unsafe.Pointer(&floatLeafNode[V]{\n\t\t\tkey:   (*byte)(unsafe.Pointer(hidden + uintptr(len(keyS)))),"),
+                                      R("trees.go", "import (\n\t\"bytes\"\n\t\"iter\"\n\t\"unsafe\"\n)", "import (\n\t\"bytes\"\n\t\"iter\"\n\t\"runtime\"\n\t\"unsafe\"\n)")],
+     "float leaf key pointer round-trips through uintptr across a scheduling point (checkptr / GC may lose it)"),
     ("m43_signed_leaf_reordered", ["C18", "C03"], [R("trees.go", "type signedLeafNode[V any] struct {\n\tkey   *byte\n\tvalue V\n\tlen   uint32\n}", "type signedLeafNode[V any] struct {\n\tvalue V\n\tkey   *byte\n\tlen   uint32\n}")],
      "signed leaf layout differs from the unsigned leaf that Range reads it through"),
     ("m44_trees_only_edit", ["C19"], [R("trees.go", "func (t *floatSortedTree[K, V]) Size() int { return t.size }", "func (t *floatSortedTree[K, V]) Size() int { return t.size + 0 }")],
